@@ -170,3 +170,14 @@ Fixpoint flatten (p : path) (d : dir) : list (floc * content) :=
       ++ (fix go (l : list (string * dir)) : list (floc * content) :=
             match l with [] => [] | (k, x) :: r => flatten (p ++ [k]) x ++ go r end) subs
   end.
+
+(* distinct keys in every TensorDict node (python dicts: always true of a real tensordict) *)
+Fixpoint keys_distinct (t : td) : bool :=
+  match t with
+  | Node _ ents =>
+      nodupb (map fst ents)
+      && (fix all (es : list (string * td)) : bool := match es with [] => true | (_, x) :: r => keys_distinct x && all r end) ents
+  | Lazy _ ms => (fix all (l : list td) : bool := match l with [] => true | x :: r => keys_distinct x && all r end) ms
+  | TCls _ inner => keys_distinct inner
+  | _ => true
+  end.
